@@ -36,11 +36,22 @@ NUMPY PRIMITIVES (TRUSTED) -- arrays of rank 1..3, no broadcasting between array
       contract writes the same expression); H, W are the shape terms of the first array leaf of s.
 
 DERIVED (proved, not trusted)
-(D1) np.sum(e) for a rank-1 element-wise expression e (or a rank-1 array): the engine's own reading is kept (result =
-      asum(len), the partial-sum function of the evaluated array) and the LEMMA
+(D1) np.sum(e) for a rank-1 element-wise expression e (or a rank-1 array), functions of autoarray.fit.fit_util only: the
+      engine's own reading is kept (result = asum(len), the partial-sum function of the evaluated array) and the LEMMA
           forall 0 <= n <= len:  asum(n) == c08_sum1(D, n),     D = arr1(len, lambda k: e point-wise at k)  (or e itself if e is a name)
       is emitted as obligations `lemma:c08.npsum@line/base|step` (hypotheses: the defining facts of the temporaries) and is
-      available to the client proof only after both are discharged (same mechanism as pyvc/ext/c09.py).
+      available to the client proof only after both are discharged (same mechanism as pyvc/ext/c09.py).  In the point-wise
+      reading `X.real` / `X.imag` of a complex array leaf are creal(X[k]) / cimag(X[k]).
+(D2) fused definitions.  Next to the defining facts of the temporaries (one quantified fact per operator) the lemma
+      hypotheses contain their composition `forall v: guards(v) -> e[v] == rhs(v)` obtained by substituting each temporary's
+      right-hand side for the temporary under the same bound variable -- a purely syntactic consequence of those facts
+      (function `_fuse`); it spares z3 the non-linear step x == n*n |- 2*pi*x == 2*pi*n*n.  Nothing is added to the
+      client's path condition.
+
+DISPATCH.  np.subtract / np.add / np.sum are also registered by other extension modules that are loaded later (their
+NP_EXT entries win).  The out=/where= forms (P3) and the boolean-selection sum (P4) are therefore recognised in a wrapper
+around calls.np_call, in front of the NP_EXT dispatch, for every contract (all other handlers ignore or reject these
+forms); everything else is dispatched as before.
 """
 from __future__ import annotations
 import ast, copy
